@@ -29,7 +29,7 @@ ASSUMPTIONS = ["bounded liveness: once the last job is enqueued and no fault is 
                "10 s + 2 s x jobs (+ injected stall time) of virtual time",
                "no pre-emption inside semantiva.core / pipeline execution (a job run is one scheduling step)"]
 REQUIRED_PROBES = ["failing_job", "slow_job", "multi_worker", "late_worker", "batch_ge_10", "fire_and_forget_job_mixed_in", "two_failing_jobs",
-                   "same_yaml_path_rewritten", "failing_job_with_two_argument_exception", "job_enqueued_from_done_callback"]
+                   "same_yaml_path_rewritten", "failing_job_with_two_argument_exception", "job_enqueued_from_done_callback", "worker_stopped_and_replaced_mid_batch", "worker_with_bounded_pool_executor"]
 CONFIG = {
     "quick": {"runs": 2500, "budget_s": 240, "timeout_s": 120, "per_fork": 4},
     "thorough": {"runs": 150000, "budget_s": 1600, "timeout_s": 180, "per_fork": 6},
@@ -86,9 +86,82 @@ def generate(rng: random.Random, tier: str, seed: int) -> dict:
         yaml_pair = [{"nodes": a1["nodes"], "context": a1["context"], "init_data": a1["init_data"]},
                      {"nodes": a2["nodes"], "context": a2["context"], "init_data": a2["init_data"]}]
     nworkers = rng.randint(1, 4)
-    return {"jobs": jobs, "workers": [{"start_delay": rng.choice([0.0, 0.0, 0.0, 0.4, 1.5]), "poll": rng.choice([0.1, 0.1, 0.05, 0.2])}
+    # worker churn: one worker is told to stop at some instant (scale-down / rolling restart), a replacement starts later
+    churn = {"victim": rng.randrange(nworkers), "at": rng.choice([0.0, 0.02, 0.1, 0.3, 1.0]), "replacement_delay": rng.choice([0.0, 0.05, 0.5])} \
+        if rng.random() < 0.2 else None
+    # the worker's executor: the default sequential one, or a bounded asynchronous pool (1-2 threads) shared by nothing else
+    pool = rng.choice([1, 1, 2]) if rng.random() < 0.2 else None
+    return {"churn": churn, "pool": pool, "jobs": jobs, "workers": [{"start_delay": rng.choice([0.0, 0.0, 0.0, 0.4, 1.5]), "poll": rng.choice([0.1, 0.1, 0.05, 0.2])}
                                       for _ in range(nworkers)],
             "yaml_pair": yaml_pair, "chained": chained, "strategy": rng.choice(FAIR_STRATEGIES), "sched_seed": rng.getrandbits(48), "choices": None}
+
+
+class SimFuture:
+    """Future of the simulated pool: result() blocks the calling TASK (virtual), not the OS thread."""
+
+    def __init__(self):
+        self._evt = threads.SimEvent()
+        self._res = None
+        self._exc = None
+
+    def set_result(self, r):
+        self._res = r
+        self._evt.set()
+
+    def set_exception(self, e):
+        self._exc = e
+        self._evt.set()
+
+    def done(self):
+        return self._evt.is_set()
+
+    def result(self, timeout=None):
+        self._evt.wait(timeout)
+        if not self._evt.is_set():
+            raise TimeoutError()
+        if self._exc is not None:
+            raise self._exc
+        return self._res
+
+    def exception(self, timeout=None):
+        self._evt.wait(timeout)
+        return self._exc
+
+
+def _make_pool_class():
+    from semantiva.execution.executor.executor import SemantivaExecutor
+
+    class _SimPoolExecutor(SemantivaExecutor):
+        """A bounded asynchronous SemantivaExecutor (existing executor seam): n pool tasks under the scheduler."""
+
+        def __init__(self, sched, n, stop, tag):
+            self.q = threads.SimQueue()
+            self.stop = stop
+            for k in range(n):
+                sched.spawn(f"pool_{tag}_{k}", self._run)
+
+        def submit(self, fn, *args, ser_hooks=None, **kwargs):
+            f = SimFuture()
+            self.q.put((f, fn, args, kwargs))
+            return f
+
+        def _run(self):
+            import queue as _q
+            while not self.stop.is_set():
+                try:
+                    f, fn, args, kwargs = self.q.get(timeout=0.2)
+                except _q.Empty:
+                    continue
+                try:
+                    f.set_result(fn(*args, **kwargs))
+                except BaseException as e:  # noqa: BLE001
+                    f.set_exception(e)
+
+    return _SimPoolExecutor
+
+
+def SimPoolExecutor(sched, n, stop, tag):
+    return _make_pool_class()(sched, n, stop, tag)
 
 
 def _expected(job: dict, w) -> dict:
@@ -126,6 +199,8 @@ def execute(sc: dict, seed: int) -> dict:
         njobs = len(sc["jobs"])
         stall_total = sum(n.get("parameters", {}).get("delay", 0.0) for j in sc["jobs"] for n in j["nodes"] if n.get("processor") == "SvSlow")
         bound = 10.0 + 2.0 * njobs + stall_total
+        if sc.get("churn"):
+            bound += sc["churn"]["at"] + sc["churn"]["replacement_delay"] + 2.0
         futures: list = [None] * njobs
         pair_futures: list = []
         chain_futures: list = []
@@ -141,12 +216,34 @@ def execute(sc: dict, seed: int) -> dict:
             def master():
                 orch.run_forever()
 
+            wstops: list = []      # every worker has its own stop event (set at shutdown, or earlier for the churn victim)
+
+            def make_executor(i):
+                if sc.get("pool"):
+                    stats["probe.worker_with_bounded_pool_executor"] = 1
+                    return SimPoolExecutor(sched, sc["pool"], stop, f"w{i}")
+                return SequentialSemantivaExecutor()
+
             def worker(i, spec):
+                ws = threads.SimEvent()
+                wstops.append(ws)
+                if stop.is_set():
+                    ws.set()            # a replacement created after the shutdown was announced
+
                 def run():
                     if spec["start_delay"]:
                         threads.sim_sleep(spec["start_delay"])
-                    wk.worker_loop(i, tr, SequentialSemantivaExecutor(), stop, logger=lg, poll_interval=spec["poll"])
+                    wk.worker_loop(i, tr, make_executor(i), ws, logger=lg, poll_interval=spec["poll"])
                 return run
+
+            def churner():
+                ch = sc["churn"]
+                threads.sim_sleep(ch["at"])
+                wstops[ch["victim"]].set()          # the victim finishes what it holds and leaves (its finally closes the transport)
+                sched.probe("worker_stopped_mid_batch")
+                if ch["replacement_delay"]:
+                    threads.sim_sleep(ch["replacement_delay"])
+                sched.spawn("worker_replacement", worker(100 + ch["victim"], {"start_delay": 0.0, "poll": 0.1}))
 
             def client():
                 for i, job in enumerate(sc["jobs"]):
@@ -193,11 +290,15 @@ def execute(sc: dict, seed: int) -> dict:
                 # grace period: a duplicate completion would blow up the master here
                 threads.sim_sleep(1.0)
                 stop.set()
+                for ws in list(wstops):
+                    ws.set()
 
             sched.spawn("master", master)
             for i, spec in enumerate(sc["workers"]):
                 sched.spawn(f"worker{i}", worker(i, spec))
             sched.spawn("client", client)
+            if sc.get("churn"):
+                sched.spawn("churner", churner)
             outcome = sched.run(wall_timeout=100.0)
         viols = []
         if outcome != "completed":
@@ -284,6 +385,9 @@ def execute(sc: dict, seed: int) -> dict:
         if any(j.get("slow") for j in sc["jobs"]):
             stats["probe.slow_job"] = 1
             stats["fault.slow_job"] = sum(1 for j in sc["jobs"] if j.get("slow"))
+        if sched.probes.get("worker_stopped_mid_batch"):
+            stats["probe.worker_stopped_and_replaced_mid_batch"] = 1
+            stats["fault.worker_stop"] = 1
         if len(sc["workers"]) > 1:
             stats["probe.multi_worker"] = 1
         if any(x["start_delay"] for x in sc["workers"]):
